@@ -1,2 +1,217 @@
-use crate::Scenario;
-pub fn scenarios() -> Vec<Scenario> { vec![] }
+//! C19: batch verification accepts iff every item verifies singly (rejection up to 2^-128 over the
+//! verifier's randomness), wherever the bad item sits and even if errors were crafted to cancel;
+//! the empty batch is rejected; single-item verification agrees with ordinary verification.
+
+use frost_core as fc;
+use frost_core::batch;
+use serde_json::json;
+
+use crate::common::*;
+use crate::rng::TestRng;
+use crate::{scn, Scenario};
+
+pub fn scenarios() -> Vec<Scenario> {
+    vec![scn!(scenario_batch_matches_single, 3), scn!(scenario_batch_cancelling_errors, 1)]
+}
+
+struct Triple<C: Suite> {
+    vk: fc::VerifyingKey<C>,
+    msg: Vec<u8>,
+    sig: fc::Signature<C>,
+}
+
+fn tweak_z<C: Suite>(sig: &fc::Signature<C>, d: &Sc<C>) -> Option<fc::Signature<C>> {
+    let b = sig.serialize().ok()?;
+    let zlen = scalar_bytes::<C>(&zero::<C>()).len();
+    let (r, z) = b.split_at(b.len() - zlen);
+    let z = scalar_from_bytes::<C>(z)?;
+    let mut nb = r.to_vec();
+    nb.extend_from_slice(&scalar_bytes::<C>(&(z + *d)));
+    fc::Signature::<C>::deserialize(&nb).ok()
+}
+
+pub fn scenario_batch_matches_single<C: Suite>(rng: &mut TestRng, p: &Params, notes: &mut Notes) -> Verdict {
+    let size = match rng.below(6) {
+        0 => 1,
+        1 => 2,
+        2 => rng.range(30, 70),
+        _ => rng.range(2, 12),
+    };
+    // a few keys (so that keys repeat within the batch), one of them a FROST group key
+    let nkeys = rng.range(1, 3);
+    let sks: Vec<fc::SigningKey<C>> = (0..nkeys).map(|_| fc::SigningKey::<C>::new(rng)).collect();
+    let frost = if rng.chance(40) { setup_session::<C>(rng, p).ok() } else { None };
+    let mut items: Vec<Triple<C>> = Vec::new();
+    for _ in 0..size {
+        let len = [0usize, 1, 32, 100][rng.below(4)];
+        let msg = rng.bytes(len);
+        let sk = match sks.get(rng.below(sks.len())) {
+            Some(s) => s,
+            None => return skip("internal"),
+        };
+        let sig = sk.sign(&mut *rng, &msg);
+        items.push(Triple { vk: fc::VerifyingKey::<C>::from(sk), msg, sig });
+    }
+    if let Some((keys, _, sess)) = &frost {
+        if let Ok(sig) = fc::aggregate::<C>(&sess.package, &sess.shares, &keys.pubkeys) {
+            let pos = rng.below(items.len() + 1);
+            items.insert(pos, Triple { vk: *keys.pubkeys.verifying_key(), msg: p.message.clone(), sig });
+        }
+    }
+    // corrupt some items (possibly none)
+    let nbad = match rng.below(4) {
+        0 => 0,
+        1 | 2 => 1,
+        _ => rng.range(1, items.len()),
+    };
+    let bad_pos = rng.subset(items.len(), nbad);
+    let mut how = Vec::new();
+    let mut replay: Vec<usize> = Vec::new();
+    for pos in &bad_pos {
+        let other_vk = fc::VerifyingKey::<C>::from(&fc::SigningKey::<C>::new(rng));
+        if let Some(it) = items.get_mut(*pos) {
+            let kind = ["z-plus-one", "z-random", "other-message", "other-key", "other-items-signature"][rng.below(5)];
+            match kind {
+                "z-plus-one" => {
+                    if let Some(s) = tweak_z::<C>(&it.sig, &one::<C>()) {
+                        it.sig = s;
+                    }
+                }
+                "z-random" => {
+                    if let Some(s) = tweak_z::<C>(&it.sig, &random_nonzero_scalar::<C>(rng)) {
+                        it.sig = s;
+                    }
+                }
+                "other-message" => it.msg.push(7),
+                "other-key" => it.vk = other_vk,
+                _ => {
+                    // replay of the exact signature of an EARLIER item (which stays valid) under this
+                    // item's own message / key; falls back to a changed message for position 0
+                    it.msg = rng.bytes(it.msg.len() + 3);
+                    replay.push(*pos);
+                }
+            }
+            how.push(json!({"position": pos, "corruption": kind}));
+        }
+    }
+    for pos in replay {
+        let earlier: Vec<usize> = (0..pos).filter(|q| !bad_pos.contains(q)).collect();
+        let q = match earlier.get(rng.below(earlier.len().max(1))) {
+            Some(q) => *q,
+            None => continue,
+        };
+        let (src_sig, src_msg) = match items.get(q) {
+            Some(x) => (x.sig, x.msg.clone()),
+            None => continue,
+        };
+        let other_key = rng.chance(50);
+        let new_vk = fc::VerifyingKey::<C>::from(&fc::SigningKey::<C>::new(rng));
+        if let Some(it) = items.get_mut(pos) {
+            it.sig = src_sig;
+            if other_key {
+                // same message as the original, but another key
+                it.msg = src_msg;
+                it.vk = new_vk;
+            }
+        }
+    }
+    notes.insert("batch_size".into(), json!(items.len()));
+    notes.insert("corrupted".into(), json!(how));
+
+    // the reference answer: conjunction of ordinary verifications
+    let mut all_ok = true;
+    let mut verifier = batch::Verifier::<C>::new();
+    for (i, it) in items.iter().enumerate() {
+        let single = it.vk.verify(&it.msg, &it.sig).is_ok();
+        all_ok &= single;
+        match batch::Item::<C>::new(it.vk, it.sig, &it.msg) {
+            Ok(item) => {
+                let vs = item.clone().verify_single().is_ok();
+                check(
+                    vs == single,
+                    "Item::verify_single agrees with VerifyingKey::verify for the same key, message and signature",
+                    single.to_string(),
+                    format!("{vs} (item {i})"),
+                )?;
+                verifier.queue(item);
+            }
+            Err(e) => {
+                // an item that cannot even be built counts as not verifying
+                check(!single, "an item that verifies singly can be queued", "Ok(item)", format!("Err({e:?})"))?;
+                return Ok(());
+            }
+        }
+    }
+    let batch_ok = verifier.verify(&mut *rng).is_ok();
+    check(
+        batch_ok == all_ok,
+        "the batch is accepted iff every item verifies individually",
+        format!("batch accepted = {all_ok} (size {}, corrupted positions {:?})", items.len(), bad_pos),
+        format!("batch accepted = {batch_ok}"),
+    )?;
+    // the empty batch is rejected
+    check(
+        batch::Verifier::<C>::new().verify(&mut *rng).is_err(),
+        "the empty batch is rejected",
+        "Err(..)",
+        "Ok(())",
+    )
+}
+
+/// Two items under the same key whose response scalars were shifted by +d and -d: the errors cancel
+/// in an unblinded sum, the random blinders must catch it.
+pub fn scenario_batch_cancelling_errors<C: Suite>(rng: &mut TestRng, _p: &Params, notes: &mut Notes) -> Verdict {
+    let sk = fc::SigningKey::<C>::new(rng);
+    let vk = fc::VerifyingKey::<C>::from(&sk);
+    let n = rng.range(2, 8);
+    let mut items: Vec<Triple<C>> = (0..n)
+        .map(|i| {
+            let msg = format!("message {i}").into_bytes();
+            let sig = sk.sign(&mut *rng, &msg);
+            Triple { vk, msg, sig }
+        })
+        .collect();
+    let pair = rng.subset(n, 2);
+    // either shift by +d / -d, or swap the response scalars of the two signatures (d = z_b - z_a)
+    let swap = rng.chance(50);
+    notes.insert("variant".into(), json!(if swap { "responses swapped" } else { "shifted by +d / -d" }));
+    let z_of = |sig: &fc::Signature<C>| -> Option<Sc<C>> {
+        let b = sig.serialize().ok()?;
+        let zlen = scalar_bytes::<C>(&zero::<C>()).len();
+        scalar_from_bytes::<C>(b.get(b.len() - zlen..)?)
+    };
+    let d = if swap {
+        match (pair.first().and_then(|i| items.get(*i)).and_then(|x| z_of(&x.sig)), pair.get(1).and_then(|i| items.get(*i)).and_then(|x| z_of(&x.sig))) {
+            (Some(za), Some(zb)) => zb - za,
+            _ => return skip("cannot read z"),
+        }
+    } else {
+        random_nonzero_scalar::<C>(rng)
+    };
+    let (a, b) = match (pair.first(), pair.get(1)) {
+        (Some(a), Some(b)) => (*a, *b),
+        _ => return skip("internal"),
+    };
+    notes.insert("shifted_items".into(), json!([a, b]));
+    for (pos, delta) in [(a, d), (b, zero::<C>() - d)] {
+        if let Some(it) = items.get_mut(pos) {
+            match tweak_z::<C>(&it.sig, &delta) {
+                Some(s) => it.sig = s,
+                None => return skip("cannot shift z"),
+            }
+        }
+    }
+    let mut verifier = batch::Verifier::<C>::new();
+    for it in &items {
+        match batch::Item::<C>::new(it.vk, it.sig, &it.msg) {
+            Ok(item) => verifier.queue(item),
+            Err(_) => return skip("item cannot be built"),
+        }
+    }
+    check(
+        verifier.verify(&mut *rng).is_err(),
+        "a batch with two invalid items whose errors cancel is rejected",
+        "Err(..)",
+        "Ok(())",
+    )
+}
